@@ -22,6 +22,7 @@ func main() {
 		logq     = flag.String("logq", "", "dev: write solver queries to this file")
 		perms    = flag.Bool("perms", false, "dev: map permutation mode")
 		only     = flag.String("only", "", "run only harnesses whose name contains this")
+		frontier = flag.Int("frontier", 0, "dev: with -harness, print the decision frontier at this depth")
 	)
 	flag.Parse()
 	if *tier == "" {
@@ -34,6 +35,7 @@ func main() {
 		os.Exit(replayDir(*repo, *root, *replay))
 	}
 	if *harness != "" {
+		devFrontier = *frontier
 		os.Exit(devRun(*repo, *root, *harness, *tier, *logq, *perms))
 	}
 	if *property == "" {
@@ -42,6 +44,8 @@ func main() {
 	}
 	os.Exit(runProperty(*repo, *root, *property, *tier, *only))
 }
+
+var devFrontier int
 
 func devRun(repo, root, h, tier, logq string, perms bool) int {
 	t0 := time.Now()
@@ -75,6 +79,16 @@ func devRun(repo, root, h, tier, logq string, perms bool) int {
 	}
 	m := engine.NewMachine(prog.Prog, s, engine.Config{Tier: tier, MapPerms: perms}, nil)
 	t1 := time.Now()
+	if devFrontier > 0 {
+		r, f := m.RunFrontier(fn, devFrontier)
+		fmt.Printf("frontier depth %d: %d prefixes, %d complete paths\n", devFrontier, len(f), r.Paths)
+		for i, p := range f {
+			if i < 40 {
+				fmt.Println(p)
+			}
+		}
+		return 0
+	}
 	res := m.RunHarness(fn)
 	fmt.Printf("harness %s: paths=%d pruned=%d steps=%d decisions=%d asserts=%d reached=%v in %.1fs\n",
 		res.Name, res.Paths, res.Pruned, res.Steps, res.Decisions, res.Asserts, res.Reached, time.Since(t1).Seconds())
